@@ -1,4 +1,7 @@
-"""C06 — linear(): one segment per consecutive knot pair, abscissae forced non-decreasing, interpolating."""
+"""C06 — linear(): one segment per consecutive knot pair, abscissae forced non-decreasing, interpolating.
+
+Decided on the recurrence that `linear` computes (however it is written: stateful map, scan, explicit loop,
+with or without helper functions): state σ = previous (forced) knot, input k = next knot."""
 from .common import *
 from ..terms import sym, term_str, NF, subst_term, subterms, simp
 from ..ratfun import RF
@@ -9,11 +12,55 @@ from .c11 import state_xy
 LEVEL = 'proof'
 TRUSTED = ['SCAN schema (DESIGN §3.5) and the induction end_j = max(x_0..x_{j+1}) (paper)', 'f64::max returns the larger operand']
 ASSUMPTIONS = ['finite knots; identities over the reals']
-EXPLANATION = ('segment(k0,k1): end = k1.x verbatim, slope = Select((k1.x−k0.x) < EPSILON, 0, dy/dx), P(k0.x)=k0.y on both arms, '
-               'P(k1.x)=k1.y on the wide arm; incr_linear forces x := max(prev.x, x), returns segment(prev, forced) and stores '
-               'the forced knot; linear() is the scan of incr_linear over knots[1..] starting from knots[0]')
+EXPLANATION = ('the segments of linear() are the recurrence σ₀ = knots[0]; for k = knots[1..]: x′ = max(σ.x, k.x), '
+               'piece = {end: x′ verbatim, slope: Select((x′−σ.x) < EPSILON, 0, (k.y−σ.y)/(x′−σ.x))} with P(σ.x)=σ.y on both arms and '
+               'P(x′)=k.y on the wide arm, σ := (x′, k.y); len−1 pieces in order')
 
 EPS_BITS = 0x3cb0000000000000
+
+
+def check_piece(piece_abs, k0x, k0y, k1x, k1y):
+    """piece_abs: abstract term of a Segment<Poly1> built on left knot (k0x,k0y) and right knot (k1x,k1y) -> problems"""
+    probs = []
+    if not (isinstance(piece_abs, tuple) and piece_abs[0] == 'struct' and piece_abs[1] == 'piecewise::Segment'):
+        return ['piece is not a Segment']
+    end, poly = piece_abs[2], piece_abs[3]
+    if end != k1x:
+        probs.append('end is %s, expected the (forced) right abscissa verbatim' % term_str(end)[:100])
+    if not (isinstance(poly, tuple) and poly[0] == 'struct' and poly[1] == 'poly::Poly1' and poly[2][0] == 'arr' and len(poly[2]) == 3):
+        return probs + ['piece is not a Poly1']
+    lanes = [poly[2][1], poly[2][2]]
+    pv = lanes[1]
+    conds = set()
+    for t in subterms(pv):
+        if t[0] == 'sel':
+            conds.add(t[1])
+    if len(conds) != 1:
+        return probs + ['slope is not a single two-way select: %s' % term_str(pv)[:200]]
+    c = conds.pop()
+    nf0 = NF()
+    okc = c[0] == 'fcmp' and c[1] == 'lt' and c[3] == ('fc', EPS_BITS) and nf0(c[2]).equals(nf0(k1x) - nf0(k0x))
+    okc = okc or (c[0] == 'fcmp' and c[1] == 'gt' and c[2] == ('fc', EPS_BITS) and nf0(c[3]).equals(nf0(k1x) - nf0(k0x)))
+    if not okc:
+        probs.append('narrow-segment guard is `%s`, expected (right.x − left.x) < f64::EPSILON' % term_str(c)[:160])
+    for arm, name in ((True, 'narrow'), (False, 'wide')):
+        nf = NF({c: arm})
+        slope = nf(pv)
+        if arm:
+            if not slope.is_zero():
+                probs.append('narrow arm: slope is %s, expected 0' % nf.show(slope)[:120])
+        else:
+            want = (nf(k1y) - nf(k0y)) / (nf(k1x) - nf(k0x))
+            if not slope.equals(want):
+                probs.append('wide arm: slope is %s, expected dy/dx' % nf.show(slope)[:160])
+        p0 = poly_value(nf, lanes, nf(k0x))
+        if not p0.equals(nf(k0y)):
+            probs.append('%s arm: P(left.x) − left.y = %s' % (name, nf.show(p0 - nf(k0y))[:160]))
+        if not arm:
+            p1 = poly_value(nf, lanes, nf(k1x))
+            if not p1.equals(nf(k1y)):
+                probs.append('wide arm: P(right.x) − right.y = %s' % nf.show(p1 - nf(k1y))[:160])
+    return probs
 
 
 def find(cx, path):
@@ -22,136 +69,93 @@ def find(cx, path):
 
 def check(cx):
     rep = Report('C06')
-    fseg = find(cx, 'linear::segment')
-    finc = find(cx, 'linear::incr_linear')
     flin = find(cx, 'linear::linear')
-    seg_abs = [None]
-    if fseg is not None:
-        inst = fseg['path']
-        file, line = fn_loc(fseg)
+    if flin is None:
+        rep.finding('floor', 'linear', 'linear::linear not found')
+        return rep
+    inst = flin['path']
+    file, line = fn_loc(flin)
 
-        def go():
+    def go():
+        a = cx.analyse(flin, arg_names=['knots'])
+        rep.analysed_fns.add(inst)
+        rep.analysed_fns |= {p for p in a.it.entered if p.startswith('linear::')}
+        it, st = a.it, a.state
+        r = a.ret
+        K = ('seq', 'knots')
+        seq = r.fields[0].seq if isinstance(r, Struct) and r.path == 'piecewise::Piecewise' and isinstance(r.fields[0], VecV) else None
+        if not isinstance(seq, SeqScan):
+            rep.ob('scan', inst, False, 'segments are not a recurrence over the knots (%s)' % type(seq).__name__, fn=inst, file=file, line=line,
+                   msg='linear() does not build its pieces by one pass over the knots carrying the previous knot (%s)' % type(seq).__name__)
+            return
+        probs = []
+        base = seq.src
+        while isinstance(base, Stream) and base.kind in ('map', 'cloned', 'scan'):
+            base = base.parts[0]
+        ok_src = isinstance(base, Stream) and base.kind == 'src' and isinstance(base.parts[0], SliceRef) and \
+            base.parts[0].start == ('ic', 1) and base.parts[0].end == ('len', K)
+        if ok_src:
+            try:
+                b0 = it.read(st, base.parts[0].root, base.parts[0].path)
+                ok_src = isinstance(b0, SeqSym) and b0.name == 'knots'
+            except Unsupported:
+                ok_src = False
+        if not ok_src:
+            probs.append('the pass is not over knots[1..] in order')
+        nfl = NF()
+        if seq.n is None or not nfl(seq.n).equals(nfl(('len', K)) - RF.const(1)):
+            probs.append('number of pieces is %s, expected len − 1' % (term_str(seq.n) if seq.n else '?'))
+        rep.ob('scan', inst, not probs, '; '.join(probs) or 'one pass over knots[1..] carrying the previous knot; len−1 pieces in order',
+               fn=inst, file=file, line=line, msg='; '.join(probs))
+        xy = state_xy(seq)
+        if xy is None:
+            rep.ob('force', inst, False, 'carried state is not one knot (x, y)', fn=inst, file=file, line=line)
+            return
+        sx, sy, ix, iy, nx, ny = xy
+        idx = it.iadd(('ic', 1), seq.ivar)
+        kx, ky = ('elem', K, idx, 'x'), ('elem', K, idx, 'y')
+        # canonicalise the element index spelling
+        def canon(t):
+            m = {}
+            for x in subterms(t):
+                if x[0] == 'elem' and x[1] == K and x[2] != idx and nfl(x[2]).equals(nfl(idx)):
+                    m[x] = ('elem', K, idx, x[3])
+            return subst_term(t, m) if m else t
+        nx, ny = canon(nx), canon(ny)
+        fprobs = []
+        if (ix, iy) != (('elem', K, ('ic', 0), 'x'), ('elem', K, ('ic', 0), 'y')):
+            fprobs.append('the recurrence does not start from knots[0]')
+        if nx not in (('fcall', 'max', sx, kx), ('fcall', 'max', kx, sx)):
+            fprobs.append('carried abscissa becomes %s, expected max(previous x, knot x)' % term_str(nx)[:120])
+        if ny != ky:
+            fprobs.append('carried ordinate becomes %s, expected the knot\'s y' % term_str(ny)[:120])
+        rep.ob('force', inst, not fprobs, '; '.join(fprobs) or 'σ₀ = knots[0]; σ′ = (max(σ.x, k.x), k.y)', fn=inst, file=file, line=line,
+               msg='; '.join(fprobs))
+        piece = canon(it.abstract(st, seq.out))
+        # name the forced abscissa so that the identities stay small
+        xp = sym('x′')
+        piece_s = subst_term(piece, {nx: xp}) if nx in (('fcall', 'max', sx, kx), ('fcall', 'max', kx, sx)) else piece
+        pp = check_piece(piece_s, sx, sy, xp, ky)
+        rep.ob('seg', inst, not pp, '; '.join(pp) or 'end = x′ verbatim; slope select and both interpolation identities hold', fn=inst, file=file, line=line,
+               msg='piece built on (previous knot, forced knot): ' + '; '.join(pp))
+        rep.ob('end', inst, not any('end is' in p for p in pp), 'end of piece ι = forced abscissa', fn=inst, file=file, line=line,
+               msg='piece end is not the forced right abscissa')
+        rep.sample({'fn': inst, 'next_state': [term_str(nx), term_str(ny)], 'piece': term_str(piece_s)[:400]})
+    guarded(rep, 'scan', inst, flin, go)
+
+    # helper functions, when they exist, are checked on their own as well (same identities)
+    fseg = find(cx, 'linear::segment')
+    if fseg is not None and fseg['body']['arg_count'] == 2:
+        sinst = fseg['path']
+        sfile, sline = fn_loc(fseg)
+
+        def go_seg():
             a = cx.analyse(fseg, arg_names=['knot0', 'knot1'])
-            rep.analysed_fns.add(inst)
-            it, st = a.it, a.state
-            r = a.ret
-            seg_abs[0] = it.abstract(st, r)
-            k0x, k0y, k1x, k1y = sym('knot0.x'), sym('knot0.y'), sym('knot1.x'), sym('knot1.y')
-            ok_end = isinstance(r, Struct) and r.fields[0] == k1x
-            rep.ob('end', inst, ok_end, 'end = knot1.x (verbatim)', fn=inst, file=file, line=line,
-                   msg='segment end is %s, expected knot1.x verbatim' % (term_str(r.fields[0]) if isinstance(r, Struct) else '?'))
-            lanes = lanes_of(r.fields[1]) if isinstance(r, Struct) else None
-            if lanes is None or len(lanes) != 2:
-                rep.ob('seg', inst, False, 'piece is not a Poly1', fn=inst, file=file, line=line)
-                return
-            pv = lanes[1]
-            probs = []
-            conds = set()
-            for t in subterms(pv):
-                if t[0] == 'sel':
-                    conds.add(t[1])
-            if len(conds) != 1:
-                probs.append('slope is not a single two-way select: %s' % term_str(pv)[:200])
-            else:
-                c = conds.pop()
-                nf0 = NF()
-                okc = c[0] == 'fcmp' and c[1] == 'lt' and c[3] == ('fc', EPS_BITS) and nf0(c[2]).equals(nf0(k1x) - nf0(k0x))
-                okc = okc or (c[0] == 'fcmp' and c[1] == 'gt' and c[2] == ('fc', EPS_BITS) and nf0(c[3]).equals(nf0(k1x) - nf0(k0x)))
-                if not okc:
-                    probs.append('narrow-segment guard is `%s`, expected (knot1.x − knot0.x) < f64::EPSILON' % term_str(c))
-                for arm, name in ((True, 'narrow'), (False, 'wide')):
-                    nf = NF({c: arm})
-                    slope = nf(pv)
-                    if arm:
-                        if not slope.is_zero():
-                            probs.append('narrow arm: slope is %s, expected 0' % nf.show(slope))
-                    else:
-                        want = (nf(k1y) - nf(k0y)) / (nf(k1x) - nf(k0x))
-                        if not slope.equals(want):
-                            probs.append('wide arm: slope is %s, expected dy/dx' % nf.show(slope))
-                    p0 = poly_value(nf, lanes, nf(k0x))
-                    if not p0.equals(nf(k0y)):
-                        probs.append('%s arm: P(knot0.x) − knot0.y = %s' % (name, nf.show(p0 - nf(k0y))))
-                    if not arm:
-                        p1 = poly_value(nf, lanes, nf(k1x))
-                        if not p1.equals(nf(k1y)):
-                            probs.append('wide arm: P(knot1.x) − knot1.y = %s' % nf.show(p1 - nf(k1y)))
-            rep.ob('seg', inst, not probs, '; '.join(probs) or 'slope select and both interpolation identities hold', fn=inst, file=file, line=line,
-                   msg='; '.join(probs))
-            rep.sample({'fn': inst, 'slope': term_str(pv)[:300]})
-        guarded(rep, 'seg', inst, fseg, go)
-    inc_abs = [None]
-    if finc is not None:
-        inst = finc['path']
-        file, line = fn_loc(finc)
-
-        def go2():
-            a = cx.analyse(finc, arg_names=['prev_knot', 'current_knot'])
-            rep.analysed_fns.add(inst)
-            it, st = a.it, a.state
-            px, py, cx_, cy = sym('prev_knot.x'), sym('prev_knot.y'), sym('current_knot.x'), sym('current_knot.y')
-            forced = [('fcall', 'max', px, cx_), ('fcall', 'max', cx_, px)]
-            prev2 = it.read(st, a.args[0].root, a.args[0].path)
-            probs = []
-            fx = prev2.fields[0] if isinstance(prev2, Struct) else None
-            if fx not in forced:
-                probs.append('stored knot x is %s, expected max(prev.x, current.x)' % (term_str(fx) if fx else '?'))
-                fx = forced[0]
-            if not (isinstance(prev2, Struct) and prev2.fields[1] == cy):
-                probs.append('stored knot y is %s, expected current.y' % (term_str(prev2.fields[1]) if isinstance(prev2, Struct) else '?'))
-            got = it.abstract(st, a.ret)
-            inc_abs[0] = (got, it.abstract(st, prev2))
-            if seg_abs[0] is not None:
-                want = subst_term(seg_abs[0], {sym('knot0.x'): px, sym('knot0.y'): py, sym('knot1.x'): fx, sym('knot1.y'): cy})
-                if got != want:
-                    probs.append('returned piece is not segment(previous knot, forced knot)')
-            rep.ob('force', inst, not probs, '; '.join(probs) or 'knot = (max(prev.x, cur.x), cur.y); returns segment(prev, knot); *prev = knot',
-                   fn=inst, file=file, line=line, msg='; '.join(probs))
-        guarded(rep, 'force', inst, finc, go2)
-    if flin is not None:
-        inst = flin['path']
-        file, line = fn_loc(flin)
-
-        def go3():
-            a = cx.analyse(flin, arg_names=['knots'])
-            rep.analysed_fns.add(inst)
-            it, st = a.it, a.state
-            r = a.ret
-            K = ('seq', 'knots')
-            probs = []
-            seq = r.fields[0].seq if isinstance(r, Struct) and r.path == 'piecewise::Piecewise' and isinstance(r.fields[0], VecV) else None
-            if not isinstance(seq, SeqScan):
-                probs.append('segments are not a stateful map over the knots (%s)' % type(seq).__name__)
-            else:
-                s = seq.src
-                base = s
-                while isinstance(base, Stream) and base.kind in ('map', 'cloned'):
-                    base = base.parts[0]
-                if not (isinstance(base, Stream) and base.kind == 'src' and base.parts[0].start == ('ic', 1) and base.parts[0].end == ('len', K)):
-                    probs.append('scan is not over knots[1..] in order')
-                xy = state_xy(seq)
-                if xy is None:
-                    probs.append('carried state is not one knot')
-                else:
-                    sx, sy, ix, iy, nx, ny = xy
-                    if (ix, iy) != (('elem', K, ('ic', 0), 'x'), ('elem', K, ('ic', 0), 'y')):
-                        probs.append('scan does not start from knots[0]')
-                    if inc_abs[0] is not None:
-                        idx = it.iadd(('ic', 1), seq.ivar)
-                        m = {sym('prev_knot.x'): sx, sym('prev_knot.y'): sy,
-                             sym('current_knot.x'): ('elem', K, idx, 'x'), sym('current_knot.y'): ('elem', K, idx, 'y')}
-                        want_out = subst_term(inc_abs[0][0], m)
-                        want_next = subst_term(inc_abs[0][1], m)
-                        if it.abstract(st, seq.out) != want_out:
-                            probs.append('piece ι is not incr_linear(running knot, knots[ι+1])')
-                        if ('struct', 'poly::Knot', nx, ny) != want_next:
-                            probs.append('running knot is not updated to the forced knot')
-                nfl = NF()
-                if seq.n is None or not nfl(seq.n).equals(nfl(('len', K)) - RF.const(1)):
-                    probs.append('number of pieces is %s, expected len − 1' % (term_str(seq.n) if seq.n else '?'))
-            rep.ob('scan', inst, not probs, '; '.join(probs) or 'segments = scan(incr_linear, knots[0], knots[1..]); len−1 pieces in order',
-                   fn=inst, file=file, line=line, msg='; '.join(probs))
-        guarded(rep, 'scan', inst, flin, go3)
+            rep.analysed_fns.add(sinst)
+            pp = check_piece(a.it.abstract(a.state, a.ret), sym('knot0.x'), sym('knot0.y'), sym('knot1.x'), sym('knot1.y'))
+            rep.ob('seg', sinst, not pp, '; '.join(pp) or 'helper segment(k0, k1): same identities', fn=sinst, file=sfile, line=sline,
+                   msg='; '.join(pp))
+        guarded(rep, 'seg', sinst, fseg, go_seg)
     for r in ('end', 'seg', 'force', 'scan'):
         rep.floor(r, 1)
     return rep
